@@ -320,4 +320,102 @@ theorem typingCode_error_iff (c : RenderCfg) (e : RefEnv) (t : Ty) :
       obtain ⟨a, ha, _⟩ := typingCode_ok c e t r.1 r.2 hc
       rw [h] at ha; cases ha
 
+/-! ## where `Literal[...]` nodes come from -/
+
+/-- the rule of `StringLiteral.to_typing_code` -/
+def litShown (c : RenderCfg) (vs : List String) : Bool :=
+  c.useLiterals && decide ((vs.length : Int) < c.maxLiterals)
+
+mutual
+/-- the IR type has a literal member that the style shows as `Literal[...]` -/
+def litPos (c : RenderCfg) : Ty → Bool
+  | .lit _ vs => litShown c vs
+  | .list t | .dict t | .opt t => litPos c t
+  | .union ts | .tuple ts => litPosList c ts
+  | _ => false
+def litPosList (c : RenderCfg) : List Ty → Bool
+  | [] => false
+  | t :: ts => litPos c t || litPosList c ts
+end
+
+mutual
+theorem hasLiteral_eq (c : RenderCfg) (e : RefEnv) :
+    ∀ (t : Ty) (a : Ann), tyAnn c e t = some a → a.hasLiteral = litPos c t
+  | .int, a, h | .float, a, h | .bool, a, h | .str, a, h | .null, a, h | .unknown, a, h => by
+    simp [tyAnn] at h; subst h; rfl
+  | .ser k, a, h => by
+    simp only [tyAnn] at h
+    split at h
+    · split at h <;> cases h; rfl
+    · cases h; rfl
+  | .lit o vs, a, h => by
+    simp only [tyAnn] at h
+    split at h <;> cases h <;> simp_all [Ann.hasLiteral, litPos, litShown]
+  | .list t, a, h => by
+    simp only [tyAnn, Option.map_eq_some_iff] at h
+    obtain ⟨a', ha', rfl⟩ := h
+    simpa [Ann.hasLiteral, litPos] using hasLiteral_eq c e t a' ha'
+  | .dict t, a, h => by
+    simp only [tyAnn, Option.map_eq_some_iff] at h
+    obtain ⟨a', ha', rfl⟩ := h
+    simpa [Ann.hasLiteral, litPos] using hasLiteral_eq c e t a' ha'
+  | .opt t, a, h => by
+    simp only [tyAnn, Option.map_eq_some_iff] at h
+    obtain ⟨a', ha', rfl⟩ := h
+    simpa [Ann.hasLiteral, litPos] using hasLiteral_eq c e t a' ha'
+  | .union ts, a, h => by
+    simp only [tyAnn] at h
+    split at h
+    · cases h
+    · simp only [Option.map_eq_some_iff] at h
+      obtain ⟨as, has, rfl⟩ := h
+      simpa [Ann.hasLiteral, litPos] using hasLiteralList_eq c e ts as has
+  | .tuple ts, a, h => by
+    simp only [tyAnn] at h
+    split at h
+    · cases h
+    · simp only [Option.map_eq_some_iff] at h
+      obtain ⟨as, has, rfl⟩ := h
+      simpa [Ann.hasLiteral, litPos] using hasLiteralList_eq c e ts as has
+  | .obj fs, a, h => by simp [tyAnn] at h
+  | .ptr i, a, h => by
+    simp only [tyAnn, Option.map_eq_some_iff] at h
+    obtain ⟨n, _, rfl⟩ := h
+    rfl
+theorem hasLiteralList_eq (c : RenderCfg) (e : RefEnv) :
+    ∀ (ts : List Ty) (as : List Ann), tyAnns c e ts = some as → Ann.hasLiteralList as = litPosList c ts
+  | [], as, h => by simp [tyAnns] at h; subst h; rfl
+  | t :: ts, as, h => by
+    simp only [tyAnns] at h
+    split at h
+    · rename_i a as' ha has
+      cases h
+      simp [Ann.hasLiteralList, litPosList, hasLiteral_eq c e t a ha, hasLiteralList_eq c e ts as' has]
+    · cases h
+end
+
+/-- the style never shows a literal: attrs (`use_literals = False`) or a non-positive `max_literals` -/
+def NoLit (c : RenderCfg) : Prop := c.useLiterals = false ∨ c.maxLiterals ≤ 0
+
+theorem litShown_false {c : RenderCfg} (h : NoLit c) (vs : List String) : litShown c vs = false := by
+  unfold litShown
+  rcases h with h | h
+  · simp [h]
+  · have : ¬ ((vs.length : Int) < c.maxLiterals) := by omega
+    simp [this]
+
+mutual
+theorem litPos_false {c : RenderCfg} (h : NoLit c) : ∀ t : Ty, litPos c t = false
+  | .lit _ vs => by simp [litPos, litShown_false h]
+  | .list t | .dict t | .opt t => by simp [litPos, litPos_false h t]
+  | .union ts | .tuple ts => by simp [litPos, litPosList_false h ts]
+  | .int | .float | .bool | .str | .null | .unknown | .ser _ | .obj _ | .ptr _ => by simp [litPos]
+theorem litPosList_false {c : RenderCfg} (h : NoLit c) : ∀ ts : List Ty, litPosList c ts = false
+  | [] => rfl
+  | t :: ts => by simp [litPosList, litPos_false h t, litPosList_false h ts]
+end
+
+theorem noLit_of_attrs {c : RenderCfg} (h : c.fw = .attrs) : NoLit c := by
+  left; simp [RenderCfg.useLiterals, h]; decide
+
 end J2M.Rend
